@@ -35,6 +35,20 @@ def observe(code, t, r, s):
         "r_link": [int(x) for x in r.dimension_link.index] if r.has_link else None,
         "s_labels": own(s._h5group, "labels"), "s_link": [int(x) for x in s.dimension_link.index] if s.has_link else None,
     }
+    extra = []
+    host = r._parent
+    for d in list(host.dimensions)[2:]:
+        g = d._h5group
+        kind = g.get_attr("dimension_type")
+        if kind == "range":
+            extra.append(["range", own(g, "ticks"), g.get_attr("unit"), g.get_attr("label")])
+        elif kind == "sample":
+            off = g.get_attr("offset")
+            extra.append(["sampled", int(round(float(g.get_attr("sampling_interval")))), g.get_attr("unit"), g.get_attr("label"),
+                          None if off is None else int(round(float(off)))])
+        else:
+            extra.append(["set", own(g, "labels")])
+    st["extra"] = extra
 
     def get(fn, conv):
         try:
@@ -90,6 +104,24 @@ def main():
                     s.link_data_array(t, list(op[1]))
                 elif o == "SUnlink":
                     s.remove_link()
+                elif o in ("AppendRange", "AppendSampled", "AppendSet"):
+                    def sv(a):
+                        return None if a is None else (5 if a == "BAD" else a)
+
+                    def nv(a):
+                        return None if a is None else ("x" if a == "BAD" else float(a))
+                    try:
+                        if o == "AppendRange":
+                            tk = op[1]
+                            ticks = None if tk is None else (["a", "b"] if tk == "BAD" else [float(x) for x in tk])
+                            h.append_range_dimension(ticks, label=sv(op[2]), unit=sv(op[3]))
+                        elif o == "AppendSampled":
+                            h.append_sampled_dimension(nv(op[1]), label=sv(op[2]), unit=sv(op[3]), offset=nv(op[4]))
+                        else:
+                            tk = op[1]
+                            h.append_set_dimension(None if tk is None else ([1, 2] if tk == "BAD" else [str(x) for x in tk]))
+                    except Exception:
+                        raise ValueError("refused")
                 elif o == "TSetUnit":
                     t.unit = op[1]
                 elif o == "TSetLabel":
